@@ -750,3 +750,713 @@ Proof.
   intros T E. unfold pins_lifetime. destruct (Z.ltb_spec (p_timeout p) (e * second)) as [H|H]; [|lia].
   rewrite C15.wrap64_small by exact E. lia.
 Qed.
+
+(* ================================================================== Part 4: bind *)
+(* running a getter: the result is the view, the message keeps every header *)
+Lemma run_view {A} (x : M A) (view : message -> res A) m :
+  pres names x -> (forall m0, snd (x m0) = view m0) -> exists m1, x m = (m1, view m) /\ keeps names m m1.
+Proof.
+  intros P V. exists (fst (x m)). split; [|apply P]. rewrite <- V. destruct (x m); reflexivity.
+Qed.
+Definition opt_res {A} (r : res A) : res (option A) :=
+  match r with Ok a => Ok (Some a) | Err => Ok None | Panic => Panic end.
+Lemma run_try {A} (x : M A) (view : message -> res A) m :
+  pres names x -> (forall m0, snd (x m0) = view m0) -> exists m1, mtry x m = (m1, opt_res (view m)) /\ keeps names m m1.
+Proof.
+  intros P V. destruct (run_view x view m P V) as (m1 & E & K). exists m1. split; [|exact K].
+  unfold mtry. rewrite E. destruct (view m); reflexivity.
+Qed.
+Definition P_method := pres_get_method names all_names_incl.
+Definition P_dialog := pres_get_dialog names all_names_incl.
+Definition P_tid := pres_client_transaction names all_names_incl.
+
+(* handleDialog as a function of the views of the response *)
+Definition hd_tail_pure (e : env) (p1 : pstate) (ob : option bref) (m : message) : res pstate :=
+  match ob with
+  | None => Ok p1
+  | Some b =>
+      match method_of m with
+      | Panic => Panic
+      | Err => Ok p1
+      | Ok meth =>
+          if beq meth (s2b "INVITE") then
+            match dialog_of m with
+            | Panic => Panic
+            | Ok d => Ok (with_pins p1 (pins_add (e_now e) d (bref_val b) (get_expires m 0) (ps_pins p1)))
+            | Err => Ok p1
+            end
+          else if beq meth (s2b "BYE") then
+            match dialog_of m with
+            | Panic => Panic
+            | Ok d => Ok (with_pins p1 (pins_remove d (ps_pins p1)))
+            | Err => Ok p1
+            end
+          else Ok p1
+      end
+  end.
+Definition hd_pure (e : env) (peer : bytes) (peer_port : Z) (p : pstate) (m : message) : res pstate :=
+  let addr := join_host_port peer peer_port in
+  match alookup addr (ps_backends p) with
+  | Some g => hd_tail_pure e p (Some (BObj addr g)) m
+  | None =>
+      match tid_of m with
+      | Ok tid =>
+          let pins1 := fst (pins_get (e_now e) tid (ps_pins p)) in
+          let ob := snd (pins_get (e_now e) tid (ps_pins p)) in
+          let pins2 := if is_final_response m then pins_remove tid pins1 else pins1 in
+          hd_tail_pure e (with_pins p pins2) (option_map bref_of_val ob) m
+      | Err => Err
+      | Panic => Panic
+      end
+  end.
+
+Definition hd_tail (e : env) (p1 : pstate) (ob : option bref) : M pstate :=
+  match ob with
+  | None => mret p1
+  | Some b =>
+      mlet om := mtry s_get_method in
+      match om with
+      | None => mret p1
+      | Some meth =>
+          if beq meth (s2b "INVITE") then
+            mlet od := mtry s_get_dialog in
+            mlet ex := s_get_expires 0 in
+            match od with
+            | Some d => mret (with_pins p1 (pins_add (e_now e) d (bref_val b) ex (ps_pins p1)))
+            | None => mret p1
+            end
+          else if beq meth (s2b "BYE") then
+            mlet od := mtry s_get_dialog in
+            match od with
+            | Some d => mret (with_pins p1 (pins_remove d (ps_pins p1)))
+            | None => mret p1
+            end
+          else mret p1
+      end
+  end.
+Lemma hd_tail_run e p1 ob m0 m : keeps names m0 m ->
+  exists m', hd_tail e p1 ob m = (m', hd_tail_pure e p1 ob m0) /\ keeps names m0 m'.
+Proof.
+  intros K0. unfold hd_tail, hd_tail_pure. destruct ob as [b|]; [|exists m; split; [reflexivity|exact K0]].
+  unfold mbind at 1.
+  destruct (run_try s_get_method method_of m P_method s_get_method_snd) as (m1 & E1 & K1). rewrite E1.
+  rewrite (method_of_keeps names m0 m K0 ltac:(in_names)).
+  assert (K01 : keeps names m0 m1) by (eapply keeps_trans; eassumption).
+  destruct (method_of m0) as [meth| |]; cbn [opt_res]; try (exists m1; split; [reflexivity|exact K01]).
+  destruct (beq meth (s2b "INVITE")).
+  { unfold mbind.
+    destruct (run_try s_get_dialog dialog_of m1 P_dialog s_get_dialog_snd) as (m2 & E2 & K2). rewrite E2.
+    assert (K02 : keeps names m0 m2) by (eapply keeps_trans; eassumption).
+    rewrite (dialog_of_keeps names m0 m1 K01) by in_names.
+    destruct (dialog_of m0) as [d| |]; cbn [opt_res]; try (exists m2; split; [reflexivity|exact K02]).
+    unfold s_get_expires, mret. rewrite <- (k_expires names m0 m2 K02 ltac:(in_names)).
+    exists m2. split; [reflexivity|exact K02]. }
+  destruct (beq meth (s2b "BYE")); [|exists m1; split; [reflexivity|exact K01]].
+  unfold mbind.
+  destruct (run_try s_get_dialog dialog_of m1 P_dialog s_get_dialog_snd) as (m2 & E2 & K2). rewrite E2.
+  assert (K02 : keeps names m0 m2) by (eapply keeps_trans; eassumption).
+  rewrite (dialog_of_keeps names m0 m1 K01) by in_names.
+  destruct (dialog_of m0) as [d| |]; cbn [opt_res]; exists m2; (split; [reflexivity|exact K02]).
+Qed.
+Lemma handle_dialog_run e peer port p m :
+  exists m', handle_dialog e peer port p m = (m', hd_pure e peer port p m) /\ keeps names m m'.
+Proof.
+  unfold handle_dialog, hd_pure.
+  destruct (alookup (join_host_port peer port) (ps_backends p)) as [g|].
+  - unfold mbind at 1, mret at 1.
+    apply (hd_tail_run e p (Some (BObj (join_host_port peer port) g)) m m). apply keeps_refl.
+  - unfold mbind at 1. unfold mbind at 1.
+    destruct (run_view s_client_transaction tid_of m P_tid s_client_transaction_snd) as (m1 & E1 & K1). rewrite E1.
+    destruct (tid_of m) as [tid| |]; try (exists m1; split; [reflexivity|exact K1]).
+    destruct (pins_get (e_now e) tid (ps_pins p)) as [pins1 ob]. cbn [fst snd].
+    unfold mbind at 1. unfold mret at 1. rewrite (k_is_final names m m1 K1).
+    apply (hd_tail_run e _ _ m m1). exact K1.
+Qed.
+
+(* ---- the Via stack of a response: what PopVia leaves on top ---- *)
+Definition pv (v : hval) : option (list via_param) := match v with HVia l => Some l | _ => None end.
+Definition sem_via (v : hval) : res (list via_param) := semg pv parse_via v.
+Definition via_vals (m : message) : list hval := hvals (s2b "Via") (m_headers m).
+Definition pop_vals (vs : list hval) : list hval :=
+  match vs with
+  | [] => []
+  | v :: r => match sem_via v with
+              | Ok (_ :: (_ :: _) as rest) => HVia rest :: r
+              | Ok _ => r
+              | _ => vs
+              end
+  end.
+Definition top_of_vals (vs : list hval) : res via_param :=
+  match vs with
+  | v :: _ => let! l := sem_via v in match l with x :: _ => Ok x | [] => Err end
+  | [] => Err
+  end.
+Lemma top_via_of_vals m : top_via_of m = top_of_vals (via_vals m).
+Proof.
+  unfold top_via_of, s_get_via. rewrite typed_get_snd. fold (via_vals m).
+  destruct (via_vals m) as [|v r]; reflexivity.
+Qed.
+Lemma get_via_vals m :
+  via_vals (fst (s_get_via m)) =
+  match via_vals m with
+  | v :: r => match v with HRaw s => match parse_via s with Ok l => HVia l :: r | _ => v :: r end | _ => v :: r end
+  | [] => []
+  end.
+Proof.
+  unfold s_get_via, typed_get, via_vals.
+  pose proof (get_header_hvals (s2b "Via") (m_headers m)) as E.
+  destruct (hvals (s2b "Via") (m_headers m)) as [|v r] eqn:Ev;
+    destruct (get_header (s2b "Via") (m_headers m)) as [h|]; cbn [option_map hd_error] in E; try discriminate.
+  - cbn [fst]. exact Ev.
+  - injection E as E. rewrite E.
+    destruct v as [s|l|l|l|f|f|c]; cbn [fst]; try (exact Ev).
+    destruct (parse_via s) as [l| |]; cbn [fst]; try exact Ev.
+    unfold set_val. cbn [m_headers with_headers]. rewrite hvals_update_same, Ev. reflexivity.
+Qed.
+Lemma pop_via_vals m : via_vals (fst (s_pop_via m)) = pop_vals (via_vals m).
+Proof.
+  unfold s_pop_via, mbind.
+  pose proof (get_via_vals m) as G.
+  assert (S : snd (s_get_via m) = match hd_error (via_vals m) with Some v => sem_via v | None => Err end)
+    by apply typed_get_snd.
+  destruct (s_get_via m) as [m1 r]. cbn [fst snd] in *. subst r.
+  unfold pop_vals. destruct (via_vals m) as [|v vs]; cbn [hd_error]; [cbn [fst]; exact G|].
+  assert (G' : forall l, sem_via v = Ok l -> via_vals m1 = HVia l :: vs).
+  { intros l Hl. rewrite G. unfold sem_via, semg in Hl. destruct v as [s|l0|l0|l0|f|f|c]; cbn in Hl; try discriminate.
+    - rewrite Hl. reflexivity.
+    - injection Hl as ->. reflexivity. }
+  destruct (sem_via v) as [l| |] eqn:Ev; cbn [fst].
+  - specialize (G' l eq_refl).
+    destruct l as [|a [|b l]]; unfold mmodify; cbn [fst]; unfold via_vals in *.
+    + cbn [m_headers with_headers]. rewrite hvals_remove_same, G'. reflexivity.
+    + cbn [m_headers with_headers]. rewrite hvals_remove_same, G'. reflexivity.
+    + unfold set_val. cbn [m_headers with_headers]. rewrite hvals_update_same, G'. reflexivity.
+  - rewrite G. unfold sem_via, semg in Ev. destruct v as [s|l0|l0|l0|f|f|c]; cbn in Ev; try discriminate; try reflexivity.
+    rewrite Ev. reflexivity.
+  - rewrite G. unfold sem_via, semg in Ev. destruct v as [s|l0|l0|l0|f|f|c]; cbn in Ev; try discriminate; try reflexivity.
+    rewrite Ev. reflexivity.
+Qed.
+Lemma sem_via_vrel v v' : vrel (s2b "Via") v v' -> sem_via v' = sem_via v.
+Proof. intros [->|H]; [reflexivity|]. apply (proj1 ok_via). exact H. Qed.
+Lemma pop_vals_rel vs vs' : Forall2 (vrel (s2b "Via")) vs vs' -> Forall2 (vrel (s2b "Via")) (pop_vals vs) (pop_vals vs').
+Proof.
+  intros H. destruct H as [|v v' r r' Hv Hr]; [constructor|]. unfold pop_vals.
+  rewrite (sem_via_vrel v v' Hv).
+  destruct (sem_via v) as [[|a [|b l]]| |]; try exact Hr; try (constructor; assumption).
+  constructor; [left; reflexivity|exact Hr].
+Qed.
+Lemma top_of_vals_rel vs vs' : Forall2 (vrel (s2b "Via")) vs vs' -> top_of_vals vs' = top_of_vals vs.
+Proof.
+  intros H. destruct H as [|v v' r r' Hv Hr]; [reflexivity|]. unfold top_of_vals.
+  rewrite (sem_via_vrel v v' Hv). reflexivity.
+Qed.
+(* the Via entry on top once the proxy's own entry has been popped *)
+Definition next_top (m : message) : res via_param := top_via_of (fst (s_pop_via m)).
+Lemma next_top_vals m : next_top m = top_of_vals (pop_vals (via_vals m)).
+Proof. unfold next_top. rewrite top_via_of_vals, pop_via_vals. reflexivity. Qed.
+Lemma next_top_keeps N m m' : keeps N m m' -> In (s2b "Via") N -> next_top m' = next_top m.
+Proof.
+  intros [_ K] H. rewrite !next_top_vals. apply top_of_vals_rel. apply pop_vals_rel. apply K. exact H.
+Qed.
+Definition hop_of_via (v : via_param) : bytes * Z * bytes :=
+  match via_get_received v with
+  | Some h => (h, match via_get_rport v with Some p => p | None => via_get_port v end, v_transport v)
+  | None => (v_host v, via_get_port v, v_transport v)
+  end.
+Lemma next_response_hop_snd m : snd (next_response_hop m) = rmap hop_of_via (top_via_of m).
+Proof.
+  unfold next_response_hop, mbind. rewrite <- s_top_via_snd. destruct (s_top_via m) as [m1 r]. cbn [snd].
+  destruct r as [v| |]; cbn; try reflexivity. unfold hop_of_via. destruct (via_get_received v); reflexivity.
+Qed.
+Definition relay_hop (m : message) : res (bytes * Z * bytes) := rmap hop_of_via (next_top m).
+
+Lemma lb_send_message2 e host port tr m x p : p = x_p x -> lb_eq p (x_p (fst (send_message e host port tr m x))).
+Proof. intros ->. apply lb_send_message. Qed.
+Lemma mtry_fst {A} (x : M A) m : fst (mtry x m) = fst (x m).
+Proof. unfold mtry. destruct (x m) as [m1 r]. destruct r; reflexivity. Qed.
+Lemma mtry_snd {A} (x : M A) m : snd (mtry x m) = opt_res (snd (x m)).
+Proof. unfold mtry. destruct (x m) as [m1 r]. destruct r; reflexivity. Qed.
+
+(* names without Via / without Route *)
+Definition NP : list bytes :=
+  [s2b "Route"; s2b "From"; s2b "To"; s2b "CSeq"; s2b "Call-ID"; s2b "Subscription-State"; s2b "Expires"].
+Definition NR : list bytes :=
+  [s2b "Via"; s2b "From"; s2b "To"; s2b "CSeq"; s2b "Call-ID"; s2b "Subscription-State"; s2b "Expires"].
+(* neither *)
+Definition NQ : list bytes :=
+  [s2b "From"; s2b "To"; s2b "CSeq"; s2b "Call-ID"; s2b "Subscription-State"; s2b "Expires"].
+Ltac no_name_tac := split; [intros ? H; cbn in H |- *; tauto|
+                            cbn; intros H; repeat (destruct H as [H|H]; [discriminate H|]); exact H].
+Lemma NP_novia : no_name (s2b "Via") NP. Proof. no_name_tac. Qed.
+Lemma NR_noroute : no_name (s2b "Route") NR. Proof. no_name_tac. Qed.
+Lemma NQ_novia : no_name (s2b "Via") NQ. Proof. no_name_tac. Qed.
+Lemma NQ_noroute : no_name (s2b "Route") NQ. Proof. no_name_tac. Qed.
+Lemma NQ_names : incl NQ names. Proof. apply NQ_novia. Qed.
+Lemma NQ_NP : incl NQ NP. Proof. intros ? H; cbn in H |- *; tauto. Qed.
+Lemma NQ_NR : incl NQ NR. Proof. intros ? H; cbn in H |- *; tauto. Qed.
+Lemma NP_names : incl NP names. Proof. apply NP_novia. Qed.
+Lemma NR_names : incl NR names. Proof. apply NR_noroute. Qed.
+
+(* the SUBSCRIBE-response rule of HandleMessage as a function of the views *)
+Definition sub_bind_pure (e : env) (p : pstate) (m : message) : pstate :=
+  match relay_hop m, method_of m with
+  | Ok (host, port, _), Ok meth =>
+      if beq meth (s2b "SUBSCRIBE") then
+        let addr := host ++ ":"%char :: itoa port in
+        match alookup addr (ps_backends p), dialog_of m with
+        | Some g, Ok d => with_pins p (pins_add (e_now e) d (pin_val_backend addr g) (get_expires m 0) (ps_pins p))
+        | _, _ => p
+        end
+      else p
+  | _, _ => p
+  end.
+Lemma handle_message_response e from m x : is_request m = false ->
+  lb_eq (sub_bind_pure e (x_p x) m) (x_p (fst (handle_message e from m x))).
+Proof.
+  intros R. unfold handle_message. rewrite R.
+  pose proof (pres_try NP _ (pres_pop_via NP NP_novia) m) as K1.
+  pose proof (mtry_fst s_pop_via m) as F1.
+  destruct (mtry s_pop_via m) as [m1 r0]. cbn [fst] in K1, F1.
+  pose proof (pres_try names _ (pres_next_response_hop names all_names_incl) m1) as K2.
+  pose proof (mtry_snd next_response_hop m1) as S2.
+  destruct (mtry next_response_hop m1) as [m2 hop]. cbn [fst snd] in K2, S2.
+  rewrite next_response_hop_snd, F1 in S2. fold (next_top m) in S2. fold (relay_hop m) in S2.
+  assert (K02 : keeps NP m m2) by (eapply keeps_trans; [exact K1|eapply keeps_incl; [apply NP_names|exact K2]]).
+  pose proof (pres_try names _ P_method m2) as K3.
+  pose proof (mtry_snd s_get_method m2) as S3.
+  destruct (mtry s_get_method m2) as [m3 ometh]. cbn [fst snd] in K3, S3.
+  rewrite s_get_method_snd, (method_of_keeps NP m m2 K02 ltac:(in_names)) in S3.
+  assert (K03 : keeps NP m m3) by (eapply keeps_trans; [exact K02|eapply keeps_incl; [apply NP_names|exact K3]]).
+  subst hop ometh. unfold sub_bind_pure.
+  set (X := fun (m4 : message) (p1 : pstate) =>
+              {| x_learned := x_learned x; x_p := p1; x_conns := x_conns x; x_world := x_world x; x_outs := x_outs x |}).
+  destruct (relay_hop m) as [[[host port] tr]| |]; cbn [opt_res].
+  2:{ destruct (opt_res (method_of m)) as [[?|]| |]; apply lb_refl. }
+  2:{ destruct (opt_res (method_of m)) as [[?|]| |]; apply lb_refl. }
+  destruct (method_of m) as [meth| |]; cbn [opt_res]; try (apply lb_send_message2; reflexivity).
+  destruct (beq meth (s2b "SUBSCRIBE")); [|apply lb_send_message2; reflexivity].
+  destruct (alookup (host ++ ":"%char :: itoa port) (ps_backends (x_p x))) as [g|]; [|apply lb_send_message2; reflexivity].
+  pose proof (pres_try names _ P_dialog m3) as K4.
+  pose proof (mtry_snd s_get_dialog m3) as S4.
+  destruct (mtry s_get_dialog m3) as [m4 od]. cbn [fst snd] in K4, S4.
+  rewrite s_get_dialog_snd, (dialog_of_keeps NP m m3 K03) in S4 by in_names.
+  assert (K04 : keeps NP m m4) by (eapply keeps_trans; [exact K03|eapply keeps_incl; [apply NP_names|exact K4]]).
+  subst od. destruct (dialog_of m) as [d| |]; cbn [opt_res]; try (apply lb_send_message2; reflexivity).
+  rewrite (k_expires NP m m4 K04 ltac:(in_names)).
+  apply lb_send_message2. reflexivity.
+Qed.
+
+Lemma hd_tail_pure_keeps N e p1 ob m m' : keeps N m m' -> incl NQ N ->
+  hd_tail_pure e p1 ob m' = hd_tail_pure e p1 ob m.
+Proof.
+  intros K I. unfold hd_tail_pure.
+  rewrite (method_of_keeps N m m' K), (dialog_of_keeps N m m' K), (k_expires N m m' K); try (apply I; in_names).
+  reflexivity.
+Qed.
+Lemma hd_pure_keeps N e peer port p m m' : keeps N m m' -> incl NR N ->
+  hd_pure e peer port p m' = hd_pure e peer port p m.
+Proof.
+  intros K I. unfold hd_pure.
+  assert (IQ : incl NQ N) by (intros a Ha; apply I; apply NQ_NR; exact Ha).
+  rewrite (tid_of_keeps N m m' K), (k_is_final N m m' K); try (apply I; in_names).
+  destruct (alookup _ _); [apply (hd_tail_pure_keeps N); assumption|].
+  destruct (tid_of m); try reflexivity. apply (hd_tail_pure_keeps N); assumption.
+Qed.
+Lemma sub_bind_pure_keeps N e p m m' : keeps N m m' -> incl NR N ->
+  sub_bind_pure e p m' = sub_bind_pure e p m.
+Proof.
+  intros K I. unfold sub_bind_pure, relay_hop.
+  rewrite (next_top_keeps N m m' K), (method_of_keeps N m m' K), (dialog_of_keeps N m m' K), (k_expires N m m' K);
+    try (apply I; in_names). reflexivity.
+Qed.
+
+(* a response, end to end: handleDialog, then the SUBSCRIBE rule; the transports never touch the
+   load-balancing half *)
+Definition resp_pure (e : env) (peer : bytes) (port : Z) (p : pstate) (m : message) : pstate :=
+  sub_bind_pure e (match hd_pure e peer port p m with Ok p' => p' | _ => p end) m.
+Lemma process_message_response e peer port from rs tcp m x : is_request m = false ->
+  exists x', process_message e peer port from rs tcp m x = Ok x' /\
+             lb_eq (resp_pure e peer port (x_p x) m) (x_p x').
+Proof.
+  intros R. unfold process_message. rewrite R. cbn [andb].
+  cbv iota. rewrite R. cbn [andb]. cbv iota. rewrite R.
+  assert (T : (match tcp with Some _ => (m, Ok (x_p x)) | None => (m, Ok (x_p x)) end) = (m, @Ok pstate (x_p x)))
+    by (destruct tcp; reflexivity).
+  rewrite T. cbv iota. clear T.
+  pose proof (pres_try NR _ (pres_try_remove_top_route NR (e_cfg e) from NR_noroute) m) as K4.
+  set (m4 := fst (mtry (try_remove_top_route (e_cfg e) from) m)) in *.
+  assert (R4 : is_response m4 = true) by (rewrite (k_is_response NR m m4 K4); unfold is_response; rewrite R; reflexivity).
+  rewrite R4.
+  destruct (handle_dialog_run e peer port (x_p x) m4) as (m5 & E5 & K5). rewrite E5.
+  rewrite (hd_pure_keeps NR e peer port (x_p x) m m4 K4) by (intros a Ha; exact Ha).
+  assert (K05 : keeps NR m m5) by (eapply keeps_trans; [exact K4|eapply keeps_incl; [apply NR_names|exact K5]]).
+  assert (R5 : is_request m5 = false) by (rewrite (k_is_request NR m m5 K05); exact R).
+  eexists. split; [reflexivity|].
+  unfold resp_pure. rewrite <- (sub_bind_pure_keeps NR e _ m m5 K05) by (intros a Ha; exact Ha).
+  match goal with |- lb_eq (sub_bind_pure e ?p m5) (x_p (fst (handle_message e from m5 ?x1))) =>
+    apply (handle_message_response e from m5 x1 R5) end.
+Qed.
+
+(* everything but the pin TABLE is static across the pin operations *)
+Definition static_eq (p p' : pstate) : Prop :=
+  ps_backends p' = ps_backends p /\ ps_rr p' = ps_rr p /\ ps_has_rr p' = ps_has_rr p /\ ps_gen p' = ps_gen p /\
+  p_timeout (ps_pins p') = p_timeout (ps_pins p).
+Lemma static_refl p : static_eq p p. Proof. repeat split. Qed.
+Lemma static_trans a b c : static_eq a b -> static_eq b c -> static_eq a c.
+Proof. unfold static_eq. intros (A1&A2&A3&A4&A5) (B1&B2&B3&B4&B5). repeat split; congruence. Qed.
+Lemma static_of_lb p p' : lb_eq p p' -> static_eq p p'.
+Proof. unfold lb_eq, static_eq. intros (A1&A2&A3&A4&A5). rewrite A5. repeat split; assumption. Qed.
+Lemma timeout_get now k p : p_timeout (fst (pins_get now k p)) = p_timeout p.
+Proof. unfold pins_get. destruct (alookup k (p_tab p)) as [e|]; [|reflexivity]. destruct (_ <? _); reflexivity. Qed.
+Lemma timeout_remove k p : p_timeout (pins_remove k p) = p_timeout p. Proof. reflexivity. Qed.
+Lemma timeout_add now k b e p : p_timeout (pins_add now k b e p) = p_timeout p.
+Proof. unfold pins_add. destruct (_ <? _); reflexivity. Qed.
+Lemma static_with_pins p x : p_timeout x = p_timeout (ps_pins p) -> static_eq p (with_pins p x).
+Proof. intros H. repeat split. exact H. Qed.
+Lemma lifetime_timeout p p' e : p_timeout p' = p_timeout p -> pins_lifetime p' e = pins_lifetime p e.
+Proof. unfold pins_lifetime. intros ->. reflexivity. Qed.
+
+Lemma hd_tail_pure_static e p1 ob m p' : hd_tail_pure e p1 ob m = Ok p' -> static_eq p1 p'.
+Proof.
+  unfold hd_tail_pure. destruct ob as [b|]; [|intros H; injection H as <-; apply static_refl].
+  destruct (method_of m) as [meth| |]; try discriminate; [|intros H; injection H as <-; apply static_refl].
+  destruct (beq meth (s2b "INVITE")).
+  { destruct (dialog_of m); try discriminate; intros H; injection H as <-; [|apply static_refl].
+    apply static_with_pins. apply timeout_add. }
+  destruct (beq meth (s2b "BYE")); [|intros H; injection H as <-; apply static_refl].
+  destruct (dialog_of m); try discriminate; intros H; injection H as <-; [|apply static_refl].
+  apply static_with_pins. apply timeout_remove.
+Qed.
+Lemma hd_pure_static e peer port p m p' : hd_pure e peer port p m = Ok p' -> static_eq p p'.
+Proof.
+  unfold hd_pure. destruct (alookup _ _); [apply hd_tail_pure_static|].
+  destruct (tid_of m) as [tid| |]; try discriminate. intros H. apply hd_tail_pure_static in H.
+  eapply static_trans; [|exact H]. apply static_with_pins.
+  destruct (is_final_response m); [rewrite timeout_remove|]; apply timeout_get.
+Qed.
+Lemma sub_bind_pure_static e p m : static_eq p (sub_bind_pure e p m).
+Proof.
+  unfold sub_bind_pure. destruct (relay_hop m) as [[[h pt] tr]| |]; try apply static_refl.
+  destruct (method_of m); try apply static_refl. destruct (beq _ _); [|apply static_refl].
+  destruct (alookup _ _); [|apply static_refl]. destruct (dialog_of m); try apply static_refl.
+  apply static_with_pins. apply timeout_add.
+Qed.
+Lemma resp_pure_static e peer port p m : static_eq p (resp_pure e peer port p m).
+Proof.
+  unfold resp_pure. eapply static_trans; [|apply sub_bind_pure_static].
+  destruct (hd_pure e peer port p m) eqn:E; try apply static_refl. eapply hd_pure_static. exact E.
+Qed.
+
+(* ---- C04_bind: an INVITE response received from a backend address binds its dialog ---- *)
+Theorem C04_bind : forall e peer port from rs tcp m x g d,
+  is_request m = false ->
+  alookup (join_host_port peer port) (ps_backends (x_p x)) = Some g ->
+  method_of m = Ok (s2b "INVITE") -> dialog_of m = Ok d ->
+  let addr := join_host_port peer port in
+  let life := pins_lifetime (ps_pins (x_p x)) (get_expires m 0) in
+  0 <= life ->
+  exists x', process_message e peer port from rs tcp m x = Ok x' /\
+    pin_at d (pin_val_backend addr g) (e_now e + life) (ps_pins (x_p x')) /\
+    (forall t, t < e_now e + life -> snd (pins_get t d (ps_pins (x_p x'))) = Some (pin_val_backend addr g)) /\
+    static_eq (x_p x) (x_p x').
+Proof.
+  intros e peer port from rs tcp m x g d R A Hm Hd addr life L.
+  destruct (process_message_response e peer port from rs tcp m x R) as (x' & E & LB).
+  exists x'. split; [exact E|].
+  assert (P : resp_pure e peer port (x_p x) m =
+              with_pins (x_p x) (pins_add (e_now e) d (pin_val_backend addr g) (get_expires m 0) (ps_pins (x_p x)))).
+  { unfold resp_pure, hd_pure. cbv zeta. rewrite A. unfold hd_tail_pure. rewrite Hm, Hd.
+    replace (beq (s2b "INVITE") (s2b "INVITE")) with true by (vm_compute; reflexivity). cbn [bref_val].
+    unfold sub_bind_pure. rewrite Hm.
+    replace (beq (s2b "INVITE") (s2b "SUBSCRIBE")) with false by (vm_compute; reflexivity).
+    destruct (relay_hop m) as [[[h pt] tr]| |]; reflexivity. }
+  assert (PA : pin_at d (pin_val_backend addr g) (e_now e + life) (ps_pins (x_p x'))).
+  { destruct LB as (_ & _ & _ & _ & ->). rewrite P. cbn [ps_pins with_pins]. apply pin_at_add_same. exact L. }
+  split; [exact PA|]. split.
+  - intros t Ht. eapply pin_at_honoured; eassumption.
+  - eapply static_trans; [apply (resp_pure_static e peer port (x_p x) m)|]. apply static_of_lb. exact LB.
+Qed.
+
+(* ---- the SUBSCRIBE rule: a SUBSCRIBE response relayed towards a backend address binds its dialog ---- *)
+Theorem C04_bind_subscribe : forall e peer port from rs tcp m x host hport tr g d,
+  is_request m = false ->
+  relay_hop m = Ok (host, hport, tr) ->
+  alookup (host ++ ":"%char :: itoa hport) (ps_backends (x_p x)) = Some g ->
+  method_of m = Ok (s2b "SUBSCRIBE") -> dialog_of m = Ok d ->
+  let addr := host ++ ":"%char :: itoa hport in
+  let life := pins_lifetime (ps_pins (x_p x)) (get_expires m 0) in
+  0 <= life ->
+  exists x', process_message e peer port from rs tcp m x = Ok x' /\
+    pin_at d (pin_val_backend addr g) (e_now e + life) (ps_pins (x_p x')) /\
+    (forall t, t < e_now e + life -> snd (pins_get t d (ps_pins (x_p x'))) = Some (pin_val_backend addr g)) /\
+    static_eq (x_p x) (x_p x').
+Proof.
+  intros e peer port from rs tcp m x host hport tr g d R Hh A Hm Hd addr life L.
+  destruct (process_message_response e peer port from rs tcp m x R) as (x' & E & LB).
+  exists x'. split; [exact E|].
+  set (p1 := match hd_pure e peer port (x_p x) m with Ok p' => p' | _ => x_p x end).
+  assert (S1 : static_eq (x_p x) p1).
+  { subst p1. destruct (hd_pure e peer port (x_p x) m) eqn:Eh; try apply static_refl. eapply hd_pure_static. exact Eh. }
+  assert (P : resp_pure e peer port (x_p x) m =
+              with_pins p1 (pins_add (e_now e) d (pin_val_backend addr g) (get_expires m 0) (ps_pins p1))).
+  { unfold resp_pure. fold p1. unfold sub_bind_pure. rewrite Hh, Hm.
+    replace (beq (s2b "SUBSCRIBE") (s2b "SUBSCRIBE")) with true by (vm_compute; reflexivity).
+    destruct S1 as (-> & _). cbv zeta. rewrite A, Hd. reflexivity. }
+  assert (PA : pin_at d (pin_val_backend addr g) (e_now e + life) (ps_pins (x_p x'))).
+  { destruct LB as (_ & _ & _ & _ & ->). rewrite P. cbn [ps_pins with_pins]. subst life.
+    rewrite <- (lifetime_timeout (ps_pins (x_p x)) (ps_pins p1)) by apply S1.
+    apply pin_at_add_same. rewrite (lifetime_timeout (ps_pins (x_p x)) (ps_pins p1)) by apply S1. exact L. }
+  split; [exact PA|]. split.
+  - intros t Ht. eapply pin_at_honoured; eassumption.
+  - eapply static_trans; [apply (resp_pure_static e peer port (x_p x) m)|]. apply static_of_lb. exact LB.
+Qed.
+
+(* ================================================================== Part 5: the sticky step *)
+(* NOTIFY with Subscription-State exactly "terminated" *)
+Definition notify_terminated (meth : bytes) (m : message) : bool :=
+  beq meth (s2b "NOTIFY") && match get_raw (s2b "Subscription-State") m with Ok s => beq s (s2b "terminated") | _ => false end.
+
+(* findBackendByDialog as a function of the views *)
+Definition fbd_pure (e : env) (p : pstate) (m : message) : res (pstate * option bref) :=
+  match method_of m with
+  | Ok meth =>
+      if (negb (fx_indialog_invite (e_fx e)) && (beq meth (s2b "INVITE") || beq meth (s2b "SUBSCRIBE")))%bool then Ok (p, None)
+      else
+        match dialog_of m with
+        | Panic => Panic
+        | Err => Ok (p, None)
+        | Ok d =>
+            let pins1 := fst (pins_get (e_now e) d (ps_pins p)) in
+            let ob := snd (pins_get (e_now e) d (ps_pins p)) in
+            let p1 := with_pins p pins1 in
+            match get_raw (s2b "Subscription-State") m with
+            | Panic => Panic
+            | _ => Ok (if notify_terminated meth m then with_pins p1 (pins_remove d (ps_pins p1)) else p1,
+                       option_map bref_of_val ob)
+            end
+        end
+  | Err => Err
+  | Panic => Panic
+  end.
+Lemma fbd_run e p m : exists m', find_backend_by_dialog e p m = (m', fbd_pure e p m) /\ keeps names m m'.
+Proof.
+  unfold find_backend_by_dialog, fbd_pure. unfold mbind at 1.
+  destruct (run_view s_get_method method_of m P_method s_get_method_snd) as (m1 & E1 & K1). rewrite E1.
+  destruct (method_of m) as [meth| |]; try (exists m1; split; [reflexivity|exact K1]).
+  destruct (_ && _)%bool; [exists m1; split; [reflexivity|exact K1]|].
+  unfold mbind at 1.
+  destruct (run_try s_get_dialog dialog_of m1 P_dialog s_get_dialog_snd) as (m2 & E2 & K2). rewrite E2.
+  assert (K02 : keeps names m m2) by (eapply keeps_trans; eassumption).
+  rewrite (dialog_of_keeps names m m1 K1) by in_names.
+  destruct (dialog_of m) as [d| |]; cbn [opt_res]; try (exists m2; split; [reflexivity|exact K02]).
+  destruct (pins_get (e_now e) d (ps_pins p)) as [pins1 ob]. cbn [fst snd].
+  unfold mbind, mtry, s_get_raw, mret, notify_terminated.
+  rewrite (k_substate names m m2 K02 ltac:(in_names)).
+  destruct (get_raw (s2b "Subscription-State") m) as [s| |]; exists m2; (split; [reflexivity|exact K02]).
+Qed.
+
+(* ---- the Via the proxy pushes is on top, with the branch of this step ---- *)
+Lemma hvals_app n l1 l2 : hvals n (l1 ++ l2) = hvals n l1 ++ hvals n l2.
+Proof. unfold hvals. rewrite filter_app, map_app. reflexivity. Qed.
+Lemma find_pos_from_spec n hs : forall i,
+  match find_header_pos_from n hs i with
+  | Some j => exists k, j = (i + k)%nat /\ hvals n (firstn k hs) = [] /\ (k <= List.length hs)%nat
+  | None => hvals n hs = []
+  end.
+Proof.
+  induction hs as [|h r IH]; intros i; cbn [find_header_pos_from]; [reflexivity|].
+  destruct (same_header (h_name h) n) eqn:E.
+  - exists 0%nat. repeat split; [lia|cbn; lia].
+  - specialize (IH (S i)). destruct (find_header_pos_from n r (S i)) as [j|].
+    + destruct IH as (k & -> & H1 & H2). exists (S k). split; [lia|]. split; [|cbn; lia].
+      cbn [firstn]. unfold hvals in *. cbn. rewrite E. exact H1.
+    + unfold hvals in *. cbn. rewrite E. exact IH.
+Qed.
+Lemma hvals_insert_first n h hs : same_header (h_name h) n = true ->
+  hvals n (insert_at (match find_header_pos n hs with Some i => i | None => O end) h hs) = h_val h :: hvals n hs.
+Proof.
+  intros E. unfold find_header_pos, insert_at. pose proof (find_pos_from_spec n hs 0) as S.
+  assert (C : forall l, hvals n (h :: l) = h_val h :: hvals n l) by (intros l; unfold hvals; cbn; rewrite E; reflexivity).
+  destruct (find_header_pos_from n hs 0) as [j|].
+  - destruct S as (k & -> & H1 & H2). cbn [Nat.add].
+    rewrite hvals_app, H1, C. cbn [app]. f_equal.
+    rewrite <- (firstn_skipn k hs) at 2. rewrite hvals_app, H1. reflexivity.
+  - cbn [firstn skipn app]. apply C.
+Qed.
+Lemma via_vals_add_via v m : via_vals (add_via v m) = HVia [v] :: via_vals m.
+Proof.
+  unfold add_via, via_vals. cbn [m_headers with_headers].
+  apply (hvals_insert_first (s2b "Via") {| h_name := s2b "Via"; h_val := HVia [v] |}). vm_compute. reflexivity.
+Qed.
+Lemma via_vals_add_record_route r m : via_vals (add_record_route r m) = via_vals m.
+Proof.
+  unfold add_record_route, via_vals. cbn [m_headers with_headers].
+  apply hvals_insert_other. vm_compute. reflexivity.
+Qed.
+Definition own_via (e : env) (t : stransport) : via_param :=
+  via_set_param (s2b "branch") (e_branch e) (create_via_param (t_proto t) (t_addr t) (t_port t)).
+Definition fwd_msg (e : env) (t0 : stransport) (m1 : message) : message :=
+  px_add_record_route (pa_must_rr (wire_proxy (e_lc e))) t0 (px_add_via e t0 m1).
+Lemma fwd_msg_top e t0 m1 : top_via_of (fwd_msg e t0 m1) = Ok (own_via e t0).
+Proof.
+  rewrite top_via_of_vals. unfold fwd_msg, px_add_record_route, px_add_via.
+  destruct (_ && _)%bool; [|rewrite via_vals_add_record_route]; rewrite via_vals_add_via; reflexivity.
+Qed.
+Lemma own_via_branch e t : via_get_branch (own_via e t) = Some (e_branch e).
+Proof. unfold own_via, via_get_branch, via_set_param, create_via_param. cbn. reflexivity. Qed.
+Lemma fwd_msg_keeps e t0 m1 : keeps NP m1 (fwd_msg e t0 m1).
+Proof.
+  unfold fwd_msg. eapply keeps_trans; [apply keeps_px_add_via; apply NP_novia|].
+  apply keeps_px_add_record_route. apply NP_names.
+Qed.
+Lemma fwd_msg_tid e t0 m1 :
+  tid_of (fwd_msg e t0 m1) = let! c := snd (s_get_cseq m1) in Ok (cs_method c ++ "-"%char :: e_branch e).
+Proof.
+  unfold tid_of. rewrite fwd_msg_top, (k_cseq NP m1 _ (fwd_msg_keeps e t0 m1) ltac:(in_names)).
+  destruct (snd (s_get_cseq m1)); cbn; reflexivity.
+Qed.
+
+(* sendToBackend as a function of the views (the bytes are those of the relayed message) *)
+Definition stb_sel (e : env) (p : pstate) (m : message) : pstate * bref :=
+  let '(p1, ob) := match fbd_pure e p m with Ok v => v | _ => (p, None) end in
+  (p1, match ob with Some b => b | None => BRR end).
+Definition fwd_bytes (e : env) (t0 : stransport) (p : pstate) (m : message) : bytes :=
+  write_message (fwd_msg e t0 (fst (find_backend_by_dialog e p m))).
+Definition trans_key (e : env) (c : cseq) : bytes := cs_method c ++ "-"%char :: e_branch e.
+Definition stb_pure (e : env) (t0 : stransport) (p : pstate) (m : message) : pstate * list output :=
+  let '(p1, b) := stb_sel e p m in
+  let '(p2, outs, ok) := backend_send b (fwd_bytes e t0 p m) p1 in
+  if ok then
+    (match snd (s_get_cseq m) with
+     | Ok c => with_pins p2 (pins_add (e_now e) (trans_key e c) (bref_val b) (get_expires m 0) (ps_pins p2))
+     | _ => p2
+     end, outs)
+  else (p2, []).
+Lemma send_to_backend_spec e m x t0 : ps_has_rr (x_p x) = true -> first_transport (e_lc e) = Some t0 ->
+  let x' := fst (send_to_backend e m x) in
+  x_p x' = fst (stb_pure e t0 (x_p x) m) /\ x_outs x' = x_outs x ++ snd (stb_pure e t0 (x_p x) m) /\
+  x_learned x' = x_learned x /\ x_conns x' = x_conns x /\ x_world x' = x_world x.
+Proof.
+  intros HR FT. unfold send_to_backend, stb_pure, stb_sel, fwd_bytes. rewrite HR, FT. cbn [negb].
+  destruct (fbd_run e (x_p x) m) as (m1 & E1 & K1). rewrite E1. cbn [fst].
+  destruct (match fbd_pure e (x_p x) m with Ok v => v | _ => (x_p x, None) end) as [p1 ob].
+  set (b := match ob with Some b => b | None => BRR end). fold (fwd_msg e t0 m1).
+  destruct (backend_send b (write_message (fwd_msg e t0 m1)) p1) as [[p2 outs] ok].
+  destruct ok; cbn [fst snd x_p x_outs x_learned x_conns x_world].
+  2:{ rewrite app_nil_r. repeat split. }
+  pose proof (mtry_snd s_client_transaction (fwd_msg e t0 m1)) as S3.
+  pose proof (pres_try names _ P_tid (fwd_msg e t0 m1)) as K3.
+  destruct (mtry s_client_transaction (fwd_msg e t0 m1)) as [m3 tid]. cbn [fst snd] in S3, K3.
+  rewrite s_client_transaction_snd, fwd_msg_tid, (k_cseq names m m1 K1 ltac:(in_names)) in S3. subst tid.
+  cbn [fst snd x_p x_outs x_learned x_conns x_world]. repeat split.
+  assert (KE : get_expires m3 0 = get_expires m 0).
+  { assert (K : keeps NQ m m3).
+    { eapply keeps_trans; [eapply keeps_incl; [apply NQ_names|exact K1]|].
+      eapply keeps_trans; [eapply keeps_incl; [apply NQ_NP|apply fwd_msg_keeps]|].
+      eapply keeps_incl; [apply NQ_names|exact K3]. }
+    apply (k_expires NQ m m3 K). in_names. }
+  destruct (snd (s_get_cseq m)) as [c| |]; cbn [rbind opt_res]; [|reflexivity|reflexivity].
+  rewrite KE. reflexivity.
+Qed.
+
+Definition req_method (m : message) : bytes := match m_start m with SReq meth _ _ => meth | _ => [] end.
+Lemma method_of_request m : is_request m = true -> method_of m = Ok (req_method m).
+Proof. unfold is_request, method_of, req_method. destruct (m_start m); [reflexivity|discriminate]. Qed.
+Lemma get_raw_not_panic n m : get_raw n m <> Panic.
+Proof. unfold get_raw. destruct (get_header n (m_headers m)) as [h|]; [destruct (h_val h)|]; discriminate. Qed.
+
+Definition to_addr_outs (a : bytes) (b : bytes) : list output :=
+  match addr_dest a with Some d => [(d, b)] | None => [] end.
+Lemma backend_send_obj a g b p : In (a, g) (ps_backends p) ->
+  backend_send (BObj a g) b p = (p, if fits_datagram b then to_addr_outs a b else [], fits_datagram b).
+Proof.
+  intros HI. unfold backend_send, to_addr_outs, addr_dest.
+  assert (E : existsb (fun '(a', g') => beq a a' && Nat.eqb g g') (ps_backends p) = true).
+  { apply existsb_exists. exists (a, g). split; [exact HI|]. rewrite beq_refl, Nat.eqb_refl. reflexivity. }
+  rewrite E. cbn [andb]. destruct (fits_datagram b); [|reflexivity].
+  destruct (last_index_byte ":"%char a); reflexivity.
+Qed.
+Lemma backend_send_obj_dead a g b p : ~ In (a, g) (ps_backends p) -> backend_send (BObj a g) b p = (p, [], false).
+Proof.
+  intros HI. unfold backend_send.
+  assert (E : existsb (fun '(a', g') => beq a a' && Nat.eqb g g') (ps_backends p) = false).
+  { apply not_true_is_false. intros H. apply existsb_exists in H. destruct H as ([a' g'] & H1 & H2).
+    apply andb_true_iff in H2. destruct H2 as [H2 H3]. apply beq_eq in H2. apply Nat.eqb_eq in H3. subst. contradiction. }
+  rewrite E. reflexivity.
+Qed.
+Lemma backend_send_rr b p :
+  backend_send BRR b p =
+  (with_rr p (fst (rr_dispatch (ps_rr p))),
+   match snd (rr_dispatch (ps_rr p)) with Some a => if fits_datagram b then to_addr_outs a b else [] | None => [] end,
+   match snd (rr_dispatch (ps_rr p)) with Some a => fits_datagram b | None => false end).
+Proof.
+  unfold backend_send, to_addr_outs, addr_dest. destruct (rr_dispatch (ps_rr p)) as [r' o]. cbn [fst snd].
+  destruct o as [a|]; [|reflexivity]. destruct (fits_datagram b); [|reflexivity].
+  destruct (last_index_byte ":"%char a); reflexivity.
+Qed.
+
+(* the selection made for a request of a live-pinned dialog *)
+Lemma stb_sel_pinned e p m d addr g ex :
+  fx_indialog_invite (e_fx e) = true -> is_request m = true -> dialog_of m = Ok d ->
+  pin_at d (pin_val_backend addr g) ex (ps_pins p) -> e_now e < ex -> gen_ok g ->
+  stb_sel e p m =
+  (if notify_terminated (req_method m) m
+   then with_pins (with_pins p (ps_pins p)) (pins_remove d (ps_pins p)) else with_pins p (ps_pins p),
+   BObj addr g).
+Proof.
+  intros FX R D P L G. unfold stb_sel, fbd_pure. rewrite (method_of_request m R), FX, D. cbn [negb andb].
+  rewrite (pin_at_get_live d _ ex (e_now e) (ps_pins p) P L). cbn [fst snd option_map].
+  rewrite (bref_of_val_backend addr g G).
+  pose proof (get_raw_not_panic (s2b "Subscription-State") m) as NP.
+  destruct (get_raw (s2b "Subscription-State") m) eqn:E; try contradiction; reflexivity.
+Qed.
+
+Theorem C04_sticky_step : forall e m x t0 d addr g ex dst,
+  fx_indialog_invite (e_fx e) = true ->
+  ps_has_rr (x_p x) = true -> first_transport (e_lc e) = Some t0 ->
+  is_request m = true -> dialog_of m = Ok d ->
+  pin_at d (pin_val_backend addr g) ex (ps_pins (x_p x)) -> e_now e < ex ->
+  alookup addr (ps_backends (x_p x)) = Some g -> gen_ok g -> addr_dest addr = Some dst ->
+  let b := fwd_bytes e t0 (x_p x) m in
+  let x' := fst (send_to_backend e m x) in
+  (* exactly one datagram, to the pinned backend (none at all if it exceeds a datagram) *)
+  x_outs x' = x_outs x ++ (if fits_datagram b then [(dst, b)] else []) /\
+  (* the rotation did not move, the members did not change *)
+  ps_rr (x_p x') = ps_rr (x_p x) /\ ps_backends (x_p x') = ps_backends (x_p x) /\
+  (* the pin stays, except after a terminating NOTIFY which removes it after having used it *)
+  ((forall c, snd (s_get_cseq m) = Ok c -> trans_key e c <> d) ->
+   if notify_terminated (req_method m) m
+   then alookup d (p_tab (ps_pins (x_p x'))) = None
+   else pin_at d (pin_val_backend addr g) ex (ps_pins (x_p x'))).
+Proof.
+  intros e m x t0 d addr g ex dst FX HR FT R D P L A G AD b x'.
+  destruct (send_to_backend_spec e m x t0 HR FT) as (EP & EO & _). fold x' in EP, EO.
+  unfold stb_pure in EP, EO. rewrite (stb_sel_pinned e (x_p x) m d addr g ex FX R D P L G) in EP, EO.
+  fold b in EP, EO.
+  set (p1 := if notify_terminated (req_method m) m
+             then with_pins (with_pins (x_p x) (ps_pins (x_p x))) (pins_remove d (ps_pins (x_p x)))
+             else with_pins (x_p x) (ps_pins (x_p x))) in *.
+  assert (B1 : ps_backends p1 = ps_backends (x_p x)) by (subst p1; destruct (notify_terminated _ _); reflexivity).
+  assert (R1 : ps_rr p1 = ps_rr (x_p x)) by (subst p1; destruct (notify_terminated _ _); reflexivity).
+  rewrite (backend_send_obj addr g b p1) in EP, EO by (rewrite B1; apply alookup_in; exact A).
+  unfold to_addr_outs in EO. rewrite AD in EO.
+  destruct (fits_datagram b); cbn [fst snd] in EP, EO.
+  - split; [exact EO|]. rewrite EP.
+    split; [destruct (snd (s_get_cseq m)); exact R1|]. split; [destruct (snd (s_get_cseq m)); exact B1|].
+    intros NK. subst p1. destruct (notify_terminated (req_method m) m).
+    + destruct (snd (s_get_cseq m)) as [c| |] eqn:EC; cbn [ps_pins with_pins pins_remove p_tab];
+        try apply alookup_adel_same.
+      unfold pins_add. cbn [p_tab p_timeout p_next_clean].
+      assert (H0 : alookup d (aset (trans_key e c)
+                     {| pin_backend := bref_val (BObj addr g);
+                        pin_expire := e_now e + pins_lifetime (pins_remove d (ps_pins (x_p x))) (get_expires m 0) |}
+                     (adel d (p_tab (ps_pins (x_p x))))) = None).
+      { rewrite alookup_aset_other by (intros H; apply (NK c eq_refl); symmetry; exact H). apply alookup_adel_same. }
+      destruct (_ <? _); cbn [p_tab]; [apply C15.alookup_clean_none|]; exact H0.
+    + destruct (snd (s_get_cseq m)) as [c| |] eqn:EC; cbn [ps_pins with_pins]; try exact P.
+      apply pin_at_add_other; [apply (NK c eq_refl)|lia|exact P].
+  - split; [exact EO|]. rewrite EP. split; [exact R1|]. split; [exact B1|].
+    intros _. subst p1. destruct (notify_terminated (req_method m) m); cbn [ps_pins with_pins pins_remove p_tab].
+    + apply alookup_adel_same.
+    + exact P.
+Qed.
